@@ -11,6 +11,7 @@ import (
 	"os"
 	"os/signal"
 	"path/filepath"
+	"strings"
 	"sync"
 	"sync/atomic"
 	"time"
@@ -148,6 +149,53 @@ func c19Outage(w *W) {
 			return
 		}
 	}
+	// sampler: every 100 ms a goroutine dump; remembers a log call seen parked (sleep / channel / lock) with a library frame
+	// innermost in four consecutive samples while no other goroutine with library frames was running or in a system call
+	var parkWitness atomic.Value
+	samplerStop := make(chan struct{})
+	if !async && W >= 2 {
+		go func() {
+			seen := map[string]int{}
+			for {
+				select {
+				case <-samplerStop:
+					return
+				case <-time.After(100 * time.Millisecond):
+				}
+				now := map[string]string{}
+				busy := false
+				for _, g := range strings.Split(goroutineDump(), "\n\n") {
+					if !libFrameRe.MatchString(g) {
+						continue
+					}
+					hdr, _, _ := strings.Cut(g, "\n")
+					parked := false
+					for _, k := range []string{"[sleep", "[chan send", "[chan receive", "[select", "[sync.Mutex.Lock", "[sync.RWMutex", "[semacquire", "[sync.Cond.Wait", "[sync.WaitGroup.Wait"} {
+						if strings.Contains(hdr, k) {
+							parked = true
+						}
+					}
+					if parked && libTop("goroutine "+strings.TrimPrefix(g, "goroutine ")) && strings.Contains(g, "c19Outage") {
+						id, _, _ := strings.Cut(strings.TrimPrefix(hdr, "goroutine "), " ")
+						now[id] = g
+					} else if !parked || !libTop("goroutine "+strings.TrimPrefix(g, "goroutine ")) {
+						busy = true // somebody is at work inside the library (or inside a sink / the harness's own hook on its behalf)
+					}
+				}
+				for id := range seen {
+					if _, ok := now[id]; !ok {
+						delete(seen, id)
+					}
+				}
+				for id, g := range now {
+					if seen[id]++; seen[id] >= 4 && !busy && parkWitness.Load() == nil {
+						parkWitness.Store(g)
+					}
+				}
+			}
+		}()
+	}
+	defer close(samplerStop)
 	b0 := time.Now().Truncate(interval) // boundary #0 = start of the current interval; #k = b0 + k s
 	at := func(k, offMs int) time.Time {
 		return b0.Add(time.Duration(k)*interval + time.Duration(offMs)*time.Millisecond)
@@ -374,8 +422,14 @@ func c19Outage(w *W) {
 					}
 				}
 				if n >= 300 {
-					bad = true
-					w.Violate("C19:log-call-blocked:relative-progress", fmt.Sprintf("[%s] the call for %s by writer %d lasted from %s to %s (across an interval boundary); meanwhile writer %d started and completed %d calls - the call was waiting inside the library", pl.Name, rc.id, rc.writer, rc.start.Format("15:04:05.000"), rc.end.Format("05.000"), g, n), cs)
+					// slow or waiting? A call may legitimately be slow (the rotating goroutine fsyncs the retired file; under load
+					// that can take a second). It is a blocked call only if the sampler below SAW it parked inside the library.
+					if wit, _ := parkWitness.Load().(string); wit != "" {
+						bad = true
+						w.Violate("C19:log-call-blocked:relative-progress", fmt.Sprintf("[%s] the call for %s by writer %d lasted from %s to %s (across an interval boundary); meanwhile writer %d started and completed %d calls, and goroutine dumps taken every 100 ms show a log call parked inside the library (not in a system call) in four consecutive samples while no other goroutine was at work inside the library:\n%s", pl.Name, rc.id, rc.writer, rc.start.Format("15:04:05.000"), rc.end.Format("05.000"), g, n, trunc(wit, 1200)), cs)
+					} else {
+						w.Count("slow_calls_not_parked_in_the_library", 1)
+					}
 					break
 				}
 			}
@@ -801,7 +855,7 @@ func c19Worker(w *W) {
 func init() {
 	register(&Prop{
 		ID: "C19", Level: "fault_enumeration", MinDistinct: 10, Worker: c19Worker,
-		Rule: "faults: (a) the log directory of a running rolling appender (1 s interval) is renamed away and back - or replaced by a regular file - at 12 enumerated placements relative to real boundaries, plus 3 placements in which the process runs out of descriptors instead (EMFILE on create), (covering one, two, three or eleven (thorough: forty) boundaries, starting right after a successful rotation, restored 40 ms before / after a boundary, two separate outages, back-to-back outages, outage at the first boundary, outage inside one interval only; thorough adds 12 offset sweeps) x {1,2,4} writers issuing self-describing records with call stamps, the target written in three spellings of (fileDir, fileName) - plain, empty fileDir with the whole path in fileName, path split in the middle -, several writers held together (3 ms) at the interval check of each boundary; a call during which another writer completes 300 calls and a boundary passes counts as blocked; " +
+		Rule: "faults: (a) the log directory of a running rolling appender (1 s interval) is renamed away and back - or replaced by a regular file - at 12 enumerated placements relative to real boundaries, plus 3 placements in which the process runs out of descriptors instead (EMFILE on create), (covering one, two, three or eleven (thorough: forty) boundaries, starting right after a successful rotation, restored 40 ms before / after a boundary, two separate outages, back-to-back outages, outage at the first boundary, outage inside one interval only; thorough adds 12 offset sweeps) x {1,2,4} writers issuing self-describing records with call stamps, the target written in three spellings of (fileDir, fileName) - plain, empty fileDir with the whole path in fileName, path split in the middle -, several writers held together (3 ms) at the interval check of each boundary; a call during which another writer completes 300 calls and a boundary passes counts as blocked if goroutine dumps taken every 100 ms show it parked inside the library (sleep, channel, lock - not a system call) in four consecutive samples while nobody else is at work inside the library; " +
 			"oracle: no panic, every record present whole exactly once after the restore, every boundary lying outside all outages has a file created in its interval (creation retried), a sequential writer's post-boundary writes are not in an older file. (b) 14 sink-failure scenarios (one of them: the retention scan runs while the directory entries it lists are being removed): File/RollingFile appenders never started, after Stop, on /dev/full, with a missing directory at Start and at rotation, directory removed while open; console stream replaced by an erroring writer, a short writer, a closed file, a read-only file - Append and Write must return without panic or block. " +
 			"(c) the log directory is moved aside and a fresh one created under the same name (or the symbolic link that is the configured directory is re-pointed) while the appender runs: nothing lost, and from the next boundary on the files appear under the configured name. Non-trivial/distinct = distinct (placement, writers) runs + sink scenarios that held.",
 		Assumptions: []string{"the outage is produced by rename(2), so descriptors already open stay valid (that is what 'keeps writing to the file it already has' relies on)", "boundaries closer than 30 ms to an outage edge are not judged for retry"},
